@@ -222,6 +222,7 @@ pub fn map_param_type(t: &mut syn::Type, cx: &mut Ctx, lifetimes: &mut Vec<Strin
     let s = t.to_token_stream().to_string();
     for lt in ["'a", "'b"] { if s.contains(lt) && !lifetimes.contains(&lt.to_string()) { lifetimes.push(lt.to_string()); } }
 }
+pub fn strip_bound_prefix(p: &mut syn::Path, cx: &mut Ctx) { if p.segments.len() >= 2 { let first = p.segments[0].ident.to_string(); if STRIP_ROOTS.contains(&first.as_str()) || cx.local_mods.contains(&first) { strip_module_prefix(p, cx, true); } } }
 /// N1: drop leading module segments of crate-/std-rooted paths; other multi-segment lower-case roots need an explicit `path`/`type` rule
 fn strip_module_prefix(p: &mut syn::Path, cx: &mut Ctx, is_type: bool) {
     if p.segments.len() < 2 { return; }
@@ -303,6 +304,7 @@ pub struct Rw<'c> {
     pub gen_idents: Vec<String>,          // generic type parameters of the enclosing item (for typed closure constructors)
     pub typed_ctors: BTreeSet<String>,    // constructors whose signature the spec gives (`@sig <name>__new`)
     pub typed_caps: BTreeSet<String>,     // "<ctor> <capture>" pairs whose type the spec gives (`@captype <ctor> <capture>`)
+    pub into_params: BTreeSet<String>,    // parameters declared `impl Into<T>` (rule I1): `p.into()` is `p`
     pub local_types: std::collections::BTreeMap<String, String>,   // declared types of parameters and of locals that are clones of them
 }
 /// a closure literal or async block that is used as a value (rules L1 / A3)
@@ -327,6 +329,17 @@ fn closure_single_pat(cl: &syn::ExprClosure) -> Option<syn::Pat> {
     if cl.inputs.len() != 1 { return None; }
     Some(match &cl.inputs[0] { syn::Pat::Type(pt) => (*pt.pat).clone(), p => p.clone() })
 }
+fn block_escapes(b: &syn::Block) -> bool {
+    struct F(bool);
+    impl<'a> Visit<'a> for F {
+        fn visit_expr_return(&mut self, _: &'a syn::ExprReturn) { self.0 = true; }
+        fn visit_expr_break(&mut self, _: &'a syn::ExprBreak) { self.0 = true; }
+        fn visit_expr_continue(&mut self, _: &'a syn::ExprContinue) { self.0 = true; }
+        fn visit_expr_try(&mut self, _: &'a syn::ExprTry) { self.0 = true; }
+        fn visit_expr_closure(&mut self, _: &'a syn::ExprClosure) {}
+    }
+    let mut f = F(false); f.visit_block(b); f.0
+}
 fn has_control_escape(e: &Expr) -> bool {
     struct F(bool);
     impl<'a> Visit<'a> for F {
@@ -338,7 +351,7 @@ fn has_control_escape(e: &Expr) -> bool {
 }
 
 impl<'c> Rw<'c> {
-    pub fn new(cx: &'c mut Ctx, lifted: bool, binders: BTreeSet<String>, fn_name: String) -> Self { Rw { cx, lifted, binders, lift_prefix: fn_name.replace("::", "__").replace('@', "_"), fn_name, loops: 0, self_to_this: false, closures: 0, lifted_closures: vec![], gen_idents: vec![], typed_ctors: BTreeSet::new(), typed_caps: BTreeSet::new(), local_types: Default::default() } }
+    pub fn new(cx: &'c mut Ctx, lifted: bool, binders: BTreeSet<String>, fn_name: String) -> Self { Rw { cx, lifted, binders, lift_prefix: fn_name.replace("::", "__").replace('@', "_"), fn_name, loops: 0, self_to_this: false, closures: 0, lifted_closures: vec![], gen_idents: vec![], typed_ctors: BTreeSet::new(), typed_caps: BTreeSet::new(), into_params: BTreeSet::new(), local_types: Default::default() } }
 
     fn select_to_match(&mut self, m: &syn::Macro) -> Option<Expr> {
         let arms: Arms = match syn::parse2(m.tokens.clone()) { Ok(a) => a, Err(e) => { self.cx.err(format!("outside dialect: select! arms in {}: {}", self.fn_name, e)); return None; } };
@@ -514,6 +527,38 @@ impl<'c> VisitMut for Rw<'c> {
                 self.cx.fire("T1"); *e = parse_quote!(#inner.clone());
             }
         }
+        // I1: `.into()` on a parameter declared `impl Into<T>` (extracted as `T`)
+        if let Expr::MethodCall(m) = e { if m.method == "into" && m.args.is_empty() { if let Expr::Path(p) = &*m.receiver { if let Some(id) = p.path.get_ident() { if self.into_params.contains(&id.to_string()) { let r = (*m.receiver).clone(); self.cx.fire("I1"); *e = r; } } } } }
+        // T3: `m.entry(k).or_default().push(v)` -> `m.push_at(k, v)`
+        if let Expr::MethodCall(m) = e {
+            if m.method == "push" && m.args.len() == 1 {
+                if let Expr::MethodCall(od) = &*m.receiver { if od.method == "or_default" && od.args.is_empty() {
+                    if let Expr::MethodCall(en) = &*od.receiver { if en.method == "entry" && en.args.len() == 1 {
+                        let recv = &en.receiver; let k = &en.args[0]; let v = &m.args[0];
+                        self.cx.fire("T3"); *e = parse_quote!(#recv.push_at(#k, #v));
+                    } }
+                } }
+            }
+        }
+        // T3: `for x in v.drain(..) { B }` -> `loop { match v.drain_next() { Some(x) => B, None => break } }` (B without break/continue/return)
+        //     `for p in it.filter_map(|x| F) { B }` -> `for x in it { match F { Some(p) => B, None => {} } }`
+        if let Expr::ForLoop(fl) = e {
+            let mut done = false;
+            if let Expr::MethodCall(m) = &*fl.expr {
+                if m.method == "drain" && m.args.len() == 1 && nospace(&m.args[0].to_token_stream().to_string()) == ".." {
+                    if block_escapes(&fl.body) { self.cx.err(format!("outside dialect: break/continue/return inside a drain loop in {}", self.fn_name)); }
+                    else { let recv = &m.receiver; let pat = &fl.pat; let body = &fl.body; let label = &fl.label; self.cx.fire("T3"); *e = parse_quote!(#label loop { match #recv.drain_next() { Some(#pat) => #body, None => break } }); done = true; }
+                }
+            }
+            if !done { if let Expr::ForLoop(fl) = e { if let Expr::MethodCall(m) = &*fl.expr {
+                if m.method == "filter_map" && m.args.len() == 1 { if let Expr::Closure(cl) = &m.args[0] { if let Some(xp) = closure_single_pat(cl) {
+                    let it = &m.receiver; let f = &cl.body; let pat = &fl.pat; let body = &fl.body; let label = &fl.label;
+                    self.cx.fire("C1"); *e = parse_quote!(#label for #xp in #it { match #f { Some(#pat) => #body, None => {} } });
+                } } }
+            } } }
+        }
+        // D5: `drop(e)` / `std::mem::drop(e)` ends the value's life here
+        if let Expr::Call(c) = e { let f = nospace(&c.func.to_token_stream().to_string()); if c.args.len() == 1 && matches!(f.as_str(), "drop" | "std::mem::drop" | "mem::drop") { let a = c.args[0].clone(); self.cx.fire("D5"); *e = parse_quote!(vdrop(#a)); } }
         // T4: to_owned on Clone types is clone
         if let Expr::MethodCall(m) = e { if m.method == "to_owned" && m.args.is_empty() { m.method = syn::Ident::new("clone", m.method.span()); self.cx.fire("T4"); } }
         // F2: future.map(Ok) / future.map(|_| ())
@@ -558,6 +603,8 @@ impl<'c> VisitMut for Rw<'c> {
             } else { *e = parse_quote!(#ctor(#(#args),*)); }
             return;
         }
+        // for loops over an iterator: Verus names the ghost iterator `for x in hx_it: e` (the emitter turns the wrapper into that syntax)
+        if let Expr::ForLoop(fl) = e { let it = &fl.expr; if !it.to_token_stream().to_string().starts_with("__hx_iter") { let w: Expr = parse_quote!(__hx_iter(#it)); fl.expr = Box::new(w); } }
         // loops: number them in source order and leave a marker for the emitter
         let is_loop = matches!(e, Expr::Loop(_) | Expr::While(_) | Expr::ForLoop(_));
         if is_loop {
